@@ -109,7 +109,7 @@ def lake_build(targets, br: BuildResult, stage="lake build"):
     return rc == 0
 
 
-THEOREM_RE = re.compile(r"^\s*(?:@\[[^\]]*\]\s*)?(?:private\s+|protected\s+)?theorem\s+([A-Za-z_][\w'.]*)", re.M)
+THEOREM_RE = re.compile(r"^\s*(?:@\[[^\]]*\]\s*)?(?:private\s+|protected\s+)?theorem\s+([A-Za-z_][\w'.?!]*)", re.M)
 
 
 def property_theorems(pid: str):
